@@ -78,6 +78,7 @@ type sim struct {
 	dormant      map[int]bool // groups that exist (ConsumerGroupNames) but were not looked up since reopenlazy
 	expect       map[int]gpos // what such a group must come back as
 	dormantDirty bool         // SetAppendedSeq ran while groups were dormant (it moves them too)
+	appearOK     int          // the group the current race2 operation creates (-1 = none)
 }
 
 // parkedCall is a Consume call running on its own goroutine, blocked in Queue.NotEmpty.
@@ -192,6 +193,9 @@ func ordered(p gpos, app int64) bool { return p.a <= p.c && p.c <= app }
 //	    (so what a live group has not acknowledged is readable)
 //	(6) reopen changes no position
 func (s *sim) oracle(kind string, g int, n int64, res string, b, a snapshot, metaBefore map[int]gpos) {
+	if kind == "ackcrash" {
+		kind = "ack" // the Ack itself is judged as any other; the image is judged in doAckCrash
+	}
 	// (4)
 	if a.ack > a.app {
 		s.fail("queue-ack-above-appended", "after %s: queue ack %d > appended %d", kind, a.ack, a.app)
@@ -200,7 +204,7 @@ func (s *sim) oracle(kind string, g int, n int64, res string, b, a snapshot, met
 		if a.ack < b.ack {
 			s.fail("queue-ack-moved-back-by-"+kind, "queue ack %d -> %d", b.ack, a.ack)
 		}
-		if a.ack != b.ack && kind != "sync" && kind != "createsync" {
+		if a.ack != b.ack && kind != "sync" && kind != "createsync" && kind != "expire" && kind != "race2" {
 			s.fail("queue-ack-moved-by-"+kind, "queue ack %d -> %d", b.ack, a.ack)
 		}
 		if kind == "createsync" && a.ack != b.ack {
@@ -219,7 +223,7 @@ func (s *sim) oracle(kind string, g int, n int64, res string, b, a snapshot, met
 				}
 			}
 		}
-		if kind == "sync" && a.ack != b.ack {
+		if (kind == "sync" || kind == "expire") && a.ack != b.ack {
 			for id, p := range b.g {
 				if a.ack > p.a {
 					s.fail("sync-queue-ack-above-group-ack", "sync moved queue ack to %d, live group %d has ack %d", a.ack, id, p.a)
@@ -239,7 +243,7 @@ func (s *sim) oracle(kind string, g int, n int64, res string, b, a snapshot, met
 		for id, p := range b.g {
 			q, ok := a.g[id]
 			if !ok {
-				if !(kind == "stop" && id == g) {
+				if !(kind == "stop" && id == g) && kind != "expire" {
 					s.fail("group-lost-by-"+kind, "group %d disappeared", id)
 				}
 				continue
@@ -249,7 +253,7 @@ func (s *sim) oracle(kind string, g int, n int64, res string, b, a snapshot, met
 			}
 		}
 		for id := range a.g {
-			if _, ok := b.g[id]; !ok && !((kind == "create" || kind == "createsync") && id == g) {
+			if _, ok := b.g[id]; !ok && !((kind == "create" || kind == "createsync") && id == g) && !(kind == "race2" && id == s.appearOK) {
 				s.fail("group-appeared-by-"+kind, "group %d appeared", id)
 			}
 		}
@@ -317,7 +321,7 @@ func (s *sim) oracle(kind string, g int, n int64, res string, b, a snapshot, met
 				s.fail("parked-consume-missed-message", "%s: consumed %d appended %d but the woken Consume returned -1", kind, bp.c, a.app)
 			}
 		}
-	case "ackconsume":
+	case "ackconsume", "race2":
 		// an Ack inside the window and a Consume of the same group issued concurrently: both take
 		// effect (in whatever order the lock admits them), the consumed position moves by one
 		if !live || bp.c < -1 {
@@ -1442,7 +1446,7 @@ func (a area) Run(c *core.Ctx) error {
 		if err != nil {
 			return err
 		}
-		s := &sim{c: c, dir: dir, meta: map[int]gpos{}}
+		s := &sim{c: c, dir: dir, meta: map[int]gpos{}, appearOK: -1}
 		if err := s.open(); err != nil {
 			os.RemoveAll(dir)
 			return err
@@ -1476,6 +1480,10 @@ func (a area) Run(c *core.Ctx) error {
 				s.caseParkedRandom(rng)
 			case "race-fixed":
 				s.caseRaceFixed(rng)
+			case "round8-fixed":
+				s.caseRound8Fixed(rng)
+			case "round8":
+				s.caseRound8Random(rng)
 			case "lazy-fixed":
 				s.caseLazyFixed(rng)
 			case "fault-fixed":
@@ -1522,6 +1530,8 @@ func caseKind(i int, tier string, rng *rand.Rand) string {
 		return "reset-persist"
 	case 10:
 		return "fault-fixed"
+	case 11:
+		return "round8-fixed"
 	}
 	if tier == "thorough" && i%40 == 7 {
 		return "pages"
@@ -1531,6 +1541,8 @@ func caseKind(i int, tier string, rng *rand.Rand) string {
 		return "parked"
 	case r < 20:
 		return "race"
+	case r < 28:
+		return "round8"
 	case r < 55:
 		return "random"
 	case r < 70:
